@@ -54,6 +54,16 @@ CHECKS = {
             "sendRequest intercepted, harness recipient key) must decrypt to the encoded parameters in order under distinct ephemeral keys.",
             "Trusted: frozen copies of the three token constants, hmac/urllib/cryptography. Input space sampled.",
             "DESIGN.md 4/C20"),
+    "C18": ("exploration",
+            "runtime monitor: recording layers at every position of generated stack shapes, observed call log compared with a reference propagation interpreter; flag space of the default helpers enumerated completely",
+            "Every shape with <= 3 (quick) / 4 (thorough) items (layers or groups of 1-3) x 4-6 construction routes, plus random "
+            "shapes to depth 6 with groups of 1-4: layer order, data propagation down/up (multiset of (layer, op, path)), every "
+            "emitter x consumer x emit/broadcast x normal/detached event (exactly once, in order, nothing after the consumer, "
+            "deferred part only after the library's own loop body ran), interface lookup by class; all 16 getProtocolLayers/"
+            "getDefaultLayers combos, positional forms, all 32x2 getDefaultStack combos, pushDefaultLayers. Exhaustive for the "
+            "small shapes and the flag space, sampled above.",
+            "Trusted: the reference interpreter (our reading of the statement). Siblings inside the emitter's/consumer's own group: only 'at most once'.",
+            "DESIGN.md 4/C18"),
 }
 
 NOT_BUILT = "check not built yet in this session (planned, see DESIGN.md section 4)"
